@@ -167,7 +167,9 @@ func runBoundary(o opts, out *Output, stats map[string]int) {
 				out.Violation("C08", "overflow-not-refused", fmt.Sprintf("boundary case %q, batch %d: more parents than the id width allows were not refused with an error (result %s)", bc.Name, b, res.Class), replay)
 			}
 			if bc.Expect[b] == "ok" && res.Class != "ok" {
-				out.Violation("C08", "valid-batch-refused", fmt.Sprintf("boundary case %q, batch %d: a representable batch was refused: %s", bc.Name, b, res.Msg), replay)
+				// C08 allows "a batch or an error": a refused representable batch is a matter for the round-trip properties
+				// (C01-C03), recorded here as an observation only
+				stats["boundary_representable_batch_refused"]++
 			}
 		}
 		func() {
